@@ -28,11 +28,16 @@ Protos ==
   [valve |-> [tr |-> "udp", units |-> 3], quake2 |-> [tr |-> "udp", units |-> 1], gs1 |-> [tr |-> "udp", units |-> 1],
    gs2 |-> [tr |-> "udp", units |-> 1], gs3 |-> [tr |-> "udp", units |-> 1], unreal2 |-> [tr |-> "udp", units |-> 3],
    bedrock |-> [tr |-> "udp", units |-> 1], mindustry |-> [tr |-> "udp", units |-> 1], savage2 |-> [tr |-> "udp", units |-> 1],
-   java |-> [tr |-> "tcp", units |-> 1], legacy14 |-> [tr |-> "tcp", units |-> 1]]
+   java |-> [tr |-> "tcp", units |-> 1], legacy14 |-> [tr |-> "tcp", units |-> 1],
+   \* Eco: one HTTP GET through the ureq agent (its own connect / read / write timeouts, set from the same settings)
+   eco |-> [tr |-> "http", units |-> 1]]
 Names == DOMAIN Protos
 
 Modes(p) == IF Protos[p].tr = "udp" THEN {"silent"} ELSE {"refuse", "stall", "close"}
-Cases == UNION {[p : {p}, ipv : {4, 6}, answered : 0 .. (Protos[p].units - 1), mode : Modes(p), r : Retries] : p \in Names}
+\* which timeouts the caller configured: "r" = connect and read (write left unset), "rw" = connect, read and write.
+\* (A read timeout left unset means "block": not a bounded case.)
+TCs(p) == IF Protos[p].tr = "udp" THEN {"r"} ELSE {"r", "rw"}
+Cases == UNION {[p : {p}, ipv : {4, 6}, answered : 0 .. (Protos[p].units - 1), mode : Modes(p), r : Retries, tc : TCs(p)] : p \in Names}
 CaseOk(x) == (x.mode # "silent" => x.answered = 0)
 
 \* blocking steps the client may perform after the server stopped answering (savage2 does not retry; gs3 blocks in the
@@ -40,10 +45,11 @@ CaseOk(x) == (x.mode # "silent" => x.answered = 0)
 Units(x) == Protos[x.p].units - x.answered
 \* unreal2's list sections also end with one read that times out by design, even when answered
 Extra(x) == IF x.p = "unreal2" THEN 2 ELSE 0
-B(x) == (IF x.p = "savage2" THEN 1 ELSE x.r + 1) * Units(x) + Extra(x) + (IF Protos[x.p].tr = "tcp" THEN 1 ELSE 0)
+B(x) == (IF x.p = "savage2" THEN 1 ELSE x.r + 1) * Units(x) + Extra(x) + (IF Protos[x.p].tr \in {"tcp", "http"} THEN 1 ELSE 0)
 \* expected outcome class
 Class(x) ==
-  CASE x.mode = "refuse" -> "connect"
+  CASE Protos[x.p].tr = "http" /\ x.mode \in {"refuse", "close"} -> "anyerror"   \* the HTTP client reports every transport failure as a send failure
+    [] x.mode = "refuse" -> "connect"
     [] x.mode = "close" -> "anyerror"             \* the stream ended or was reset: an error of either class, promptly
     [] x.p \in {"valve", "unreal2"} /\ x.answered >= 1 -> "ok-or-timeout"    \* sections set to Try are left out
     [] OTHER -> "timeout"
